@@ -84,3 +84,9 @@ From PV Require Import Base.NumF Base.NumFOrd.
 Definition C02_never_loses_ground_float := @C02_never_loses_ground Fn fin Fn_ord fin_zero.
 Definition C02_nodup_float := @C02_nodup Fn fin Fn_ord fin_zero.
 Print Assumptions C02_never_loses_ground_float.
+
+(* ... and on all binary64 values but NaN (objective values may be +-inf: the order is that of the extended real line) *)
+Lemma nonnanf_zero : nonnanf (zero Fn). Proof. reflexivity. Qed.
+Definition C02_never_loses_ground_float_nn := @C02_never_loses_ground Fn nonnanf Fn_ord_nn nonnanf_zero.
+Definition C02_nodup_float_nn := @C02_nodup Fn nonnanf Fn_ord_nn nonnanf_zero.
+Print Assumptions C02_never_loses_ground_float_nn.
